@@ -5,6 +5,7 @@ Exit codes of a check:  0 held (possibly with KNOWN-FINDING lines),
 1 VIOLATION (with replay file), 2 harness error (no verdict).
 """
 import concurrent.futures as cf
+from concurrent.futures.process import BrokenProcessPool
 import copy
 import faulthandler
 import hashlib
@@ -161,17 +162,33 @@ class Violation(Exception):
 _process_history = []      # run indices this worker process has executed
 
 
+def _mark_dir():
+    return "/dev/shm/verif_marks_%d" % os.getppid()
+
+
 def _worker_chunk(args):
     modname, tier, seed, indices, hang_s = args
     faulthandler.dump_traceback_later(hang_s, exit=True)
     try:
         mod = load_prop(modname)
+        hard = getattr(mod, "RUN_HARD_TIMEOUT", None)
+        mark = None
+        if hard:
+            # a call stuck inside C code (no Python signal handler can run)
+            # ends with this worker killed by the watchdog thread; the marker
+            # tells the parent which run it was executing
+            os.makedirs(_mark_dir(), exist_ok=True)
+            mark = os.path.join(_mark_dir(), str(os.getpid()))
         agg = dict(runs=0, nontrivial_digests=set(), all_digests=0, faults={},
                    probes={}, steps=0, ops=0, known={}, violations=[],
                    samples=[], states=set(), errors=[])
         for i in indices:
             rs = derive(seed, mod.ID, tier, i)
             _process_history.append(i)
+            if mark:
+                with open(mark, "w") as f_:
+                    f_.write(str(i))
+                faulthandler.dump_traceback_later(hard, exit=True)
             try:
                 prog = mod.generate(rs, tier)
                 out = mod.execute(prog)
@@ -211,9 +228,71 @@ def _worker_chunk(args):
                     process_history=list(_process_history)))
                 if len(agg["violations"]) >= 3:
                     break
+        if mark:
+            try:
+                os.unlink(mark)
+            except OSError:
+                pass
         return agg
     finally:
         faulthandler.cancel_dump_traceback_later()
+
+
+def _hard_hangs(mod, tier, seed):
+    """After a worker died: the runs that dead workers were executing, each
+    re-executed alone in a child process under a time limit.  Returns
+    violation records for those that do not terminate there either."""
+    import shutil
+    out = []
+    d = "/dev/shm/verif_marks_%d" % os.getpid()
+    hard = getattr(mod, "RUN_HARD_TIMEOUT", None)
+    if not hard or not os.path.isdir(d):
+        return out
+    cand = []
+    for name in sorted(os.listdir(d)):
+        try:
+            pid = int(name)
+            with open(os.path.join(d, name)) as f:
+                idx = int(f.read().strip())
+        except (ValueError, OSError):
+            continue
+        # (no liveness test: the pool kills every worker once one has died,
+        # and a dead child may still be a zombie; runs that were merely in
+        # progress finish at once in the child below)
+        cand.append(idx)
+    shutil.rmtree(d, ignore_errors=True)
+    for idx in sorted(set(cand))[:40]:
+        rs = derive(seed, mod.ID, tier, idx)
+        prog = mod.generate(rs, tier)
+        v = dict(index=idx, run_seed=rs, program=prog, violation=violation(
+            mod.ID, "terminates", "hard-hang",
+            "run %d did not terminate within %d s and could not be "
+            "interrupted by a Python-level signal handler (the call is stuck "
+            "inside C code); re-executed alone in a child process it does "
+            "not terminate either" % (idx, hard)))
+        if _child_exec(mod.ID, prog, hard) == "hang":
+            out.append(v)
+    return out
+
+
+def _child_exec(prop, prog, limit):
+    """Execute a program in a child process.  'hang' if it does not finish
+    within `limit` seconds, else 'done'."""
+    code = ("import sys, json; sys.path.insert(0, %r); "
+            "from dsim import core; core.lib(); "
+            "mod = core.load_prop(%r); "
+            "out = core.execute_any(mod, json.loads(sys.stdin.read())); "
+            "v = out.get('violation'); "
+            "print('CHILD-VIOLATION ' + v['cls'] if v else 'CHILD-CLEAN')"
+            % (VERIF, prop))
+    try:
+        p = subprocess.run([sys.executable, "-B", "-c", code],
+                           input=json.dumps(jsonable(prog)),
+                           capture_output=True, text=True, timeout=limit,
+                           env=dict(os.environ, PYTHONHASHSEED="0"))
+    except subprocess.TimeoutExpired:
+        return "hang"
+    return p.stdout.strip().splitlines()[-1] if p.stdout.strip() else "done"
 
 
 def load_prop(name):
@@ -243,6 +322,7 @@ def run_batch(mod, tier, seed, runs, wall, workers=None, chunk=None,
     pending = set()
     it = iter(chunks)
     exhausted = False
+    broken = False
     try:
         while True:
             while not exhausted and len(pending) < workers * 2:
@@ -266,7 +346,17 @@ def run_batch(mod, tier, seed, runs, wall, workers=None, chunk=None,
             for f in done:
                 if f.cancelled():
                     continue
-                agg = f.result()     # BrokenProcessPool -> harness error
+                try:
+                    agg = f.result()
+                except BrokenProcessPool:
+                    hh = _hard_hangs(mod, tier, seed)
+                    if not hh:
+                        raise       # a dead worker is a harness error
+                    total["violations"].extend(hh)
+                    exhausted = True
+                    pending = set()
+                    broken = True
+                    break
                 total["runs"] += agg["runs"]
                 total["steps"] += agg["steps"]
                 total["ops"] += agg["ops"]
@@ -285,7 +375,10 @@ def run_batch(mod, tier, seed, runs, wall, workers=None, chunk=None,
                 for f in list(pending):
                     f.cancel()
     finally:
-        ex.shutdown(wait=True, cancel_futures=True)
+        ex.shutdown(wait=not broken, cancel_futures=True)
+        import shutil
+        shutil.rmtree("/dev/shm/verif_marks_%d" % os.getpid(),
+                      ignore_errors=True)
     total["wall_s"] = time.time() - t0
     total["violations"].sort(key=lambda v: v["index"])
     return total
@@ -330,11 +423,17 @@ def _history_worker(modname, seed, tier, n, order):
     if order == "rev":
         idx.reverse()
     res = {}
+    hard = getattr(mod, "RUN_HARD_TIMEOUT", None)
     for i in idx:
         prog = mod.generate(derive(seed, mod.ID + "-hist", tier, i), tier)
+        if hard:
+            # see _worker_chunk: a run stuck inside C code ends this process
+            print("AT %d" % i, flush=True)
+            faulthandler.dump_traceback_later(hard, exit=True)
         out = execute_any(mod, prog)
         v = out.get("violation")
         res[str(i)] = [out.get("rdigest"), v["cls"] if v else None]
+    faulthandler.cancel_dump_traceback_later()
     print("RESULT " + json.dumps(res, sort_keys=True))
 
 
@@ -358,6 +457,34 @@ def history_differential(mod, tier, seed, n):
              % (VERIF, name, seed, tier, n, order)],
             capture_output=True, text=True, env=env, timeout=3000)
         line = [l for l in p.stdout.splitlines() if l.startswith("RESULT ")]
+        at = [l for l in p.stdout.splitlines() if l.startswith("AT ")]
+        hard = getattr(mod, "RUN_HARD_TIMEOUT", None)
+        if (p.returncode or not line) and hard and at:
+            # the worker was killed by its watchdog inside run `i`
+            i = int(at[-1][3:])
+            seq = list(range(n))
+            if order == "rev":
+                seq.reverse()
+            seq = seq[:seq.index(i) + 1]
+            progs = [mod.generate(derive(seed, mod.ID + "-hist", tier, j),
+                                  tier) for j in seq]
+            prog = progs[-1]
+            if _child_exec(mod.ID, prog, hard) != "hang":
+                prog = dict(multi=progs)
+                if _child_exec(mod.ID, prog, hard * 2) != "hang":
+                    raise HarnessError(
+                        "history worker died in run %d, which terminates "
+                        "when re-executed: %s" % (i, p.stderr[-800:]))
+            v = violation(
+                mod.ID, "terminates", "hard-hang",
+                "a run of the process-history phase did not terminate "
+                "within %d s and could not be interrupted by a Python-level "
+                "signal handler (stuck inside C code)" % hard)
+            return dict(evaluations=len(seq), distinct_nontrivial=0,
+                        samples=[], wall_s=time.time() - t0,
+                        violations=[dict(index=-1 - i, run_seed=0,
+                                         program=prog, violation=v)],
+                        report=dict(process_history_runs=len(seq)))
         if p.returncode or not line:
             raise HarnessError("history worker failed: %s" % p.stderr[-800:])
         outs.append(json.loads(line[0][7:]))
@@ -636,6 +763,22 @@ def replay_file(path):
     with open(path) as f:
         doc = json.load(f)
     mod = load_prop(doc["property"])
+    if doc["violation"]["cls"].endswith("/terminates/hard-hang"):
+        # the recorded run gets stuck inside C code: execute it in a child
+        # process under the same time limit
+        limit = getattr(mod, "RUN_HARD_TIMEOUT", 60)
+        res = _child_exec(doc["property"], doc["program"], limit)
+        if res == "hang":
+            print("replay: reproduced class=%s" % doc["violation"]["cls"])
+            print("  the program did not terminate within %d s" % limit)
+            print("VIOLATION property=%s replay=%s" % (doc["property"], path))
+            return 1
+        print("replay: child finished: %s (recorded class was %s)" % (
+            res, doc["violation"]["cls"]))
+        if res.startswith("CHILD-VIOLATION"):
+            print("VIOLATION property=%s replay=%s" % (doc["property"], path))
+            return 1
+        return 0
     out = execute_any(mod, doc["program"])
     v = out.get("violation")
     if v:
@@ -792,8 +935,13 @@ def run_check(mod, tier, seed):
         print("[%s] violation class %s at run %d; minimising ..." % (
             mod.ID, cls, v["index"]), flush=True)
         try:
+            if cls.endswith("/terminates/hard-hang"):
+                raise HarnessError("not minimised: every evaluation would "
+                                   "cost the full time limit")
             prog, evals = minimise(mod, v["program"], cls)
             minimised = True
+        except HarnessError:
+            prog, evals, minimised = v["program"], 0, False
         except Exception:
             traceback.print_exc()
             prog, evals, minimised = v["program"], 0, False
